@@ -44,8 +44,10 @@ def main(argv=None):
         if old != text:
             changed.append(os.path.basename(target))
             if not a.check:
-                with open(target, 'w') as f:
+                tmp = target + '.tmp.%d' % os.getpid()      # atomic: a concurrent coqc never sees a half-written table
+                with open(tmp, 'w') as f:
                     f.write(text)
+                os.replace(tmp, target)
     for c in changed:
         print('table changed: %s' % c)
     for m, e in failed:
